@@ -28,7 +28,7 @@ def toB (p : Pt) : Pt := { p with coord := p.coord.map (· * 2), frame := "B" }
 
 theorem interp_two (y0 y1 : ℝ) :
     interp .linear (some 8) [0, 1] [[y0], [y1]] 1 = .ok [y0 + (y1 - y0) * (1 - 0) / (1 - 0)] := by
-  simp [interp, increasing, interpCall, linearCall, prevIdx, prevIdxGo, pySlice, pyBound, linRow]
+  simp [interp, increasing, interpCall, callRefuses, linearCall, linearSlice, linearFormula, prevIdx, prevIdxGo, pySlice, pyBound, linRow]
 
 /-- interpolate, convert, interpolate at the node `1`: frame `B` and the frame-`B` coordinate 4, the same as
 on an ephemeris converted before its first interpolation (the stale value was 2) -/
